@@ -111,6 +111,8 @@ struct bay_cb *bay_add_cb(struct bay *bay, enum bay_cb_type type, struct chan *c
  * ===================================================================================== */
 WITNESS(prv_advance);
 int64_t w_time, w_ptime;
+/* witness ghosts shared by the groups below (inputs of the native replay drivers native/c13_prv_replay*.c) */
+long w_flags, w_rowb1, w_nrows, w_row, w_type; int w_set, w_found; int64_t w_lt, w_li, w_value;
 int c_prv_advance(struct prv *prv, int64_t time)
 __CPROVER_requires(__CPROVER_is_fresh(prv, PRVSZ) && DIAG_PRE)
 __CPROVER_requires(WBIND(prv_advance, w_time == time && w_ptime == prv->time))
@@ -136,6 +138,7 @@ void h_prv_advance(void)
 /* write_line: exactly one event line carrying the current clock */
 void c_write_line(struct prv *prv, long row_base1, int64_t type, int64_t value)
 __CPROVER_requires(__CPROVER_is_fresh(prv, PRVSZ) && IO_PRE)
+__CPROVER_requires(w_rowb1 == row_base1 && w_type == type && w_value == value && w_ptime == prv->time)
 __CPROVER_assigns(LINE_FRAME)
 __CPROVER_ensures(g_line_n == OLD(g_line_n) + 1 && g_pr_other == OLD(g_pr_other) && g_seq == OLD(g_seq) + 1)
 __CPROVER_ensures(g_line_row == row_base1 && g_line_time == prv->time && g_line_type == type && g_line_val == value && g_line_f == prv->file)
@@ -193,12 +196,12 @@ long g_fl; int g_set; int64_t g_lt, g_li;      /* pre-state of the row: flags, l
 	(S_TRACKED || ((RC)->last_value_set == g_set && (RC)->last_value.type == g_lt && (RC)->last_value.i == g_li)))
 
 WITNESS(emit);
-long w_flags, w_rowb1, w_nrows; int w_set; int64_t w_lt, w_li;
+#define EMIT_WIT(P, RC) (w_flags == (RC)->flags && w_set == (RC)->last_value_set && w_lt == (RC)->last_value.type && \
+	w_li == (RC)->last_value.i && w_rowb1 == (RC)->row_base1 && w_nrows == (P)->nrows && w_type == (RC)->type && w_ptime == (P)->time)
 int c_emit(struct prv *prv, struct prv_chan *rchan)
 __CPROVER_requires(__CPROVER_is_fresh(prv, PRVSZ) && __CPROVER_is_fresh(rchan, RCSZ))
 __CPROVER_requires(EMIT_REQ(prv, rchan))
-__CPROVER_requires(WBIND(emit, w_flags == rchan->flags && w_set == rchan->last_value_set && w_lt == rchan->last_value.type &&
-	w_li == rchan->last_value.i && w_rowb1 == rchan->row_base1 && w_nrows == prv->nrows))
+__CPROVER_requires(WBIND(emit, EMIT_WIT(prv, rchan)))
 __CPROVER_assigns(EMIT_FRAME(rchan))
 __CPROVER_ensures(EMIT_ENS(prv, rchan))
 ;
@@ -229,6 +232,7 @@ void h_emit(void)
 int c_cb_prv(struct chan *chan, void *ptr)
 __CPROVER_requires(__CPROVER_is_fresh(ptr, RCSZ) && __CPROVER_is_fresh(((struct prv_chan *) ptr)->prv, PRVSZ))
 __CPROVER_requires(EMIT_REQ(((struct prv_chan *) ptr)->prv, (struct prv_chan *) ptr))
+__CPROVER_requires(EMIT_WIT(((struct prv_chan *) ptr)->prv, (struct prv_chan *) ptr))
 __CPROVER_assigns(EMIT_FRAME((struct prv_chan *) ptr))
 __CPROVER_ensures(EMIT_ENS(((struct prv_chan *) ptr)->prv, (struct prv_chan *) ptr))
 ;
@@ -280,6 +284,7 @@ __CPROVER_ensures(__CPROVER_pointer_equals(RV, g_fp_item))
 long c_get_id(struct prv *prv, long type, long row)
 __CPROVER_requires(__CPROVER_is_fresh(prv, PRVSZ))
 __CPROVER_requires(row >= 0 && row < prv->nrows && prv->nrows <= INT_MAX && type >= 0 && type <= INT_MAX)
+__CPROVER_requires(w_type == type && w_row == row && w_nrows == prv->nrows)
 __CPROVER_assigns()
 __CPROVER_ensures(RV == type * prv->nrows + row)
 ;
@@ -304,7 +309,6 @@ __CPROVER_ensures(RV == g_fp_id)
 ;
 
 WITNESS(prv_register);
-long w_row, w_type; int w_found;
 #define NEWRC ((struct prv_chan *) g_hadd_item)
 int c_prv_register(struct prv *prv, long row, long type, struct bay *bay, struct chan *chan, long flags)
 __CPROVER_requires(__CPROVER_is_fresh(prv, PRVSZ))
@@ -372,7 +376,7 @@ void h_prv_close(void)
 
 int c_prv_open_file(struct prv *prv, long nrows, FILE *file)
 __CPROVER_requires(__CPROVER_is_fresh(prv, PRVSZ) && IO_PRE)
-__CPROVER_requires(nrows >= 0 && nrows <= INT_MAX)
+__CPROVER_requires(nrows >= 0 && nrows <= INT_MAX && w_nrows == nrows)
 __CPROVER_assigns(*prv, HDR_FRAME)
 __CPROVER_ensures(RV == 0)
 /* declared row count recorded, clock at 0, empty table */
@@ -390,7 +394,7 @@ void h_prv_open_file(void)
 
 int c_prv_open(struct prv *prv, long nrows, const char *path)
 __CPROVER_requires(__CPROVER_is_fresh(prv, PRVSZ) && IO_PRE && DIAG_PRE && LOW_PRE)
-__CPROVER_requires(nrows >= 0 && nrows <= INT_MAX)
+__CPROVER_requires(nrows >= 0 && nrows <= INT_MAX && w_nrows == nrows)
 __CPROVER_assigns(*prv, HDR_FRAME, DIAG_FRAME, g_lowfail, g_open_n, g_open_ret, g_open_mode)
 /* fails only when the file cannot be created */
 __CPROVER_ensures((RV == 0) == (g_lowfail == OLD(g_lowfail)))
